@@ -234,8 +234,8 @@ fn storage_open<D: StorageData>(path: &str) -> String {
 #[cfg(not(agdb_verif))]
 fn storage_open<D: StorageData>(_path: &str) -> String { "ERROR built without the verification hooks".to_string() }
 
-/// C07 above the storage layer: the record store of the damaged file (read through the storage layer alone, on a copy,
-/// allocation tracker off) is printed as `RECS (<index> x<bytes>) ...`, then the file is opened as a database (DbFile)
+/// C07 above the storage layer: the record store of the damaged file (read through the storage layer alone, on a copy)
+/// is printed as `RECS (<index> x<bytes>) ...`, then the file is opened as a database (DbFile)
 /// under the allocation limit; `OPENED` is printed when DbImpl::new returned Ok, then the ordered dump is taken.
 /// `SKIP <why>`: the storage layer does not open the file, or a live record cannot be read completely (its size passes
 /// the lenient check of read_records but reaches beyond the end of the file): no record MAP describes such a storage.
@@ -275,6 +275,8 @@ fn db_load(path: &str, limit: usize) -> String {
         Ok(s)
     })();
     rm(&copy);
+    // the record table sized by a damaged index (known class of the STORAGE layer) was requested: not a load outcome
+    if REPORTED.load(Ordering::SeqCst) { return "SKIP storage-table-alloc".to_string(); }
     match recs {
         Err(e) => return format!("SKIP {}", e),
         Ok(line) => { println!("RECS{}", line); let _ = std::io::stdout().flush(); }
@@ -303,7 +305,7 @@ fn fnv_bytes(bs: &[u8]) -> u64 {
 
 fn one(path: &str, variant: &str, limit: usize) -> String {
     REPORTED.store(false, Ordering::SeqCst);
-    ALLOC_LIMIT.store(if variant == "dbload" { usize::MAX } else { limit }, Ordering::SeqCst);
+    ALLOC_LIMIT.store(limit, Ordering::SeqCst);
     unsafe { alarm(HANG_SECS); }
     let p = path.to_string();
     let r = catch_unwind(AssertUnwindSafe(|| match variant {
